@@ -189,6 +189,16 @@ func (mdb *memdb) deleteBodyID(bodyid uint64) {
 	mdb.ids = append(mdb.ids[:i], mdb.ids[i+1:]...)
 }
 
+// decrement the count of annotations holding a field, forgetting fields no annotation holds anymore
+// so the cached field counts match what a scan of the store would give.
+func (mdb *memdb) decrementField(field string) {
+	if mdb.fields[field] <= 1 {
+		delete(mdb.fields, field)
+	} else {
+		mdb.fields[field]--
+	}
+}
+
 // add an annotation to the in-memory DB in batch mode assuming ids are sorted later
 func (mdb *memdb) addAnnotation(bodyid uint64, annotation NeuronJSON) {
 	mdb.data[bodyid] = annotation
